@@ -308,7 +308,7 @@ func (w *World) enabled(op string) bool {
 		return w.Tr == nil
 	case "tput", "tdel", "twrite", "tbig", "commit", "discard":
 		return w.Tr != nil
-	case "put", "putE", "putL", "putM", "putX", "del", "b1", "b2", "big", "w", "trx", "cr", "crb", "crk":
+	case "put", "putE", "putL", "putM", "putX", "del", "b1", "b2", "big", "w", "trx", "trxr", "cr", "crb", "crk":
 		// writers and CompactRange block while a transaction is open
 		return w.Tr == nil
 	}
@@ -420,6 +420,40 @@ func (w *World) Apply(op string) {
 		err = tr.Write(b, nil)
 		if err == nil {
 			err = tr.Commit()
+		}
+		if err != nil {
+			tr.Discard()
+		}
+		w.record(mb, err)
+		w.SyncAck[len(w.SyncAck)-1] = err == nil
+		if err == nil {
+			w.M.Apply(mb)
+		}
+		w.opErr("transaction", err)
+	case "trxr":
+		// a transaction whose Commit is RETRIED when it fails ("it can then either be retried or
+		// discarded"): after a failed Commit one more record is written through the still open
+		// transaction and Commit is called again; only a second failure discards
+		mb := w.parseBatch(arg)
+		tr, err := w.DB.OpenTransaction()
+		if err != nil {
+			w.record(mb, err)
+			w.SyncAck[len(w.SyncAck)-1] = false
+			w.opErr("OpenTransaction", err)
+			return
+		}
+		b, _ := w.mkBatch(mb)
+		err = tr.Write(b, nil)
+		if err == nil {
+			err = tr.Commit()
+			if err != nil {
+				w.Errs = append(w.Errs, "transaction commit (first attempt): "+err.Error())
+				extra := model.BatchOp{K: "c", V: w.val("M")}
+				if perr := tr.Put(buf(extra.K), buf(extra.V), nil); perr == nil {
+					mb = append(append(model.Batch{}, mb...), extra)
+				}
+				err = tr.Commit()
+			}
 		}
 		if err != nil {
 			tr.Discard()
@@ -619,6 +653,15 @@ func (w *World) checkReads(what string, g getter, m *model.KV) {
 
 // scanBoth walks a fresh iterator forward and backward and compares with the sorted pairs.
 func (w *World) scanBoth(what string, it iterator.Iterator, want []model.Pair) {
+	if len(want) > 0 {
+		// re-position a few times without running off the end first (an application that seeks
+		// around): the iterator drops the table it stood on each time
+		it.Seek([]byte(want[0].K))
+		it.Last()
+		it.Seek([]byte(want[len(want)-1].K))
+		it.First()
+		it.Seek([]byte(want[len(want)/2].K))
+	}
 	i := 0
 	for ok := it.First(); ok; ok = it.Next() {
 		if i >= len(want) {
